@@ -685,6 +685,41 @@ func makeIntrinsics() map[string]intrinsic {
 		return nil
 	}
 
+	// ---------------------------------------------------------- sync.Pool
+	// A LIFO list per pool. The pool itself is goroutine-safe and holds no
+	// result-relevant state, so Put/Get are not "shared writes"; what the
+	// model watches is the contract: after Put(x) the caller must not touch
+	// x (nor anything reachable from it) until a Get hands it out again.
+	m["(*sync.Pool).Put"] = func(in *Interp, _ *frame, _ *ssa.CallCommon, a []Value) Value {
+		iv, _ := a[1].(IfaceV)
+		if iv.t == nil {
+			return nil
+		}
+		mo := in.syncMap(a[0])
+		in.poolSet(mo, append(append([]mapEntry{}, mo.entries...), mapEntry{nil, iv}))
+		in.markReleased(iv.v, true, 0)
+		return nil
+	}
+	m["(*sync.Pool).Get"] = func(in *Interp, _ *frame, _ *ssa.CallCommon, a []Value) Value {
+		mo := in.syncMap(a[0])
+		if n := len(mo.entries); n > 0 {
+			it := mo.entries[n-1].v
+			in.poolSet(mo, append([]mapEntry{}, mo.entries[:n-1]...))
+			in.markReleased(it.(IfaceV).v, false, 0)
+			return it
+		}
+		c := in.resolve(a[0].(Ptr))
+		st := under(c.t).(*types.Struct)
+		for i := 0; i < st.NumFields(); i++ {
+			if st.Field(i).Name() == "New" {
+				if fv, ok := in.loadCell(c.kids[i]).(*FuncV); ok && fv != nil {
+					return in.callFn(fv, nil)
+				}
+			}
+		}
+		return IfaceV{}
+	}
+
 	// ---------------------------------------------------------- sort.Slice
 	m["sort.Slice"] = func(in *Interp, _ *frame, _ *ssa.CallCommon, a []Value) Value {
 		iv := a[0].(IfaceV)
@@ -1037,6 +1072,60 @@ func (in *Interp) syncMap(recv Value) *MapObj {
 		in.syncMaps[c] = mo
 	}
 	return mo
+}
+
+// poolSet replaces a pool's item list (undone at the end of the path; not a
+// tracked shared write, see the sync.Pool model).
+func (in *Interp) poolSet(m *MapObj, ne []mapEntry) {
+	if m.born < in.epoch {
+		in.undo = append(in.undo, undoRec{m: m, ent: m.entries})
+	}
+	m.entries = ne
+}
+
+// markReleased sets or clears the released mark on every leaf cell reachable
+// from v that was allocated on the current path.
+func (in *Interp) markReleased(v Value, rel bool, depth int) {
+	if depth > 6 {
+		return
+	}
+	var cell func(c *Cell, d int)
+	cell = func(c *Cell, d int) {
+		if c == nil || d > 6 || c.born < in.epoch {
+			return
+		}
+		if c.kids == nil {
+			c.rel = rel
+			in.markReleased(c.v, rel, d+1)
+			return
+		}
+		for _, k := range c.kids {
+			cell(k, d)
+		}
+	}
+	switch x := v.(type) {
+	case Ptr:
+		if x.c != nil && x.idx == nil {
+			cell(x.c, depth)
+		}
+	case SliceV:
+		cell(x.arr, depth)
+	case IfaceV:
+		in.markReleased(x.v, rel, depth+1)
+	case *StructV:
+		for _, f := range x.f {
+			in.markReleased(f, rel, depth+1)
+		}
+	}
+}
+
+// usedAfterPut reports an access to an object that is in a sync.Pool.
+func (in *Interp) usedAfterPut(c *Cell) {
+	c.rel = false
+	if in.initMode {
+		return
+	}
+	in.ex.Fail("C09.pooled-object-used-after-put", "access to an object of type "+typeString(c.t)+" after it was handed to sync.Pool.Put and before a Get returned it: another goroutine's Get may own it")
 }
 
 func (in *Interp) syncMapStore(mo *MapObj, k, v Value) {
